@@ -10,20 +10,23 @@
    integers (the C code stores int64 / uint64 in a union and compares with the signedness of the built-in type,
    which agrees with the comparison of the mathematical values because every stored value passed the limits of
    its type). decimal64 boundaries are scaled by 10^fraction-digits as in the C code.
-   The model is what the code does, including the following departures from RFC 7950 9.2.4 / 14 (ABNF range-arg),
+   History: up to round 2 the code had two defects which the model carried: a new part was started by a number or
+   max also when no | was seen (1 50 was two parts, the second one escaped the ascending check and the check against
+   the base: a derived restriction could WIDEN its base), and two | in a row (1||) made parts_done larger than the
+   number of parts so that the check against the base read parts[] beyond the array. Both were fixed in /repo:
+   commit 72878af (a number / max that starts a part is unexpected data unless every part so far was finished by |)
+   and commit b6c3725 (a | with no part since the previous | is an error). The model follows the FIXED code; the
+   distinguished answer E_OOB of compile_range (the place where the C loop would index beyond the array) is kept and
+   proved unreachable (RestrictP.compile_range_never_oob).
+   The model is what the code does, including the remaining departures from RFC 7950 9.2.4 / 14 (ABNF range-arg),
    all confirmed on the library (see RestrictP.v for the witnesses):
-     - a new part is started by a number or max also when no | was seen (1 50 is two parts); the ascending
-       check is then skipped while parts_done = 0, and the check against the base restriction only looks at the
-       first parts_done parts: such a derived restriction can WIDEN the base;
      - .. can be repeated (1..9..3 is the part 1..3, 1....5 is 1..5);
      - a bare max part may repeat the upper bound of the previous part (127 | max);
      - number lexemes: + sign, leading zeros, -0 for unsigned types; decimal64: a sign without digits is 0,
        -.5 is accepted, more fraction digits than fraction-digits are rejected even when they are zeros;
      - the white space is isspace() (VT and FF as well);
      - a derived part must lie inside ONE part of the base, so 3..7 is rejected under 1..5 | 6..9;
-     - min is only accepted as the very first boundary and max only as the very last one;
-     - two | in a row are accepted (1|| is the part 1) and make parts_done larger than the number of parts: with a
-       base restriction the check against it then reads parts[] beyond the array (error E_OOB of the model).
+     - min is only accepted as the very first boundary and max only as the very last one.
    Model only; proofs in RestrictP.v. *)
 From LY Require Import Base TypesMisc IntLex Dec64.
 Local Open Scope N_scope.
@@ -168,7 +171,8 @@ Fixpoint loop (fuel : nat) (ty : rty) (base rparts : parts) (pd : nat) (re : boo
                 end
             end
           else if c =? 124 then
-            if is_nil rparts || re then Err E_VALID
+            (* !parts || range_expected || (parts_done == LY_ARRAY_COUNT(parts)) *)
+            if is_nil rparts || re || (pd =? length rparts)%nat then Err E_VALID
             else loop f ty base rparts (S pd) re rest
           else if starts_with s_dots expr then
             if is_nil rparts || (length rparts =? pd)%nat then Err E_VALID
@@ -184,13 +188,18 @@ Fixpoint loop (fuel : nat) (ty : rty) (base rparts : parts) (pd : nat) (re : boo
                   | Ok (v, len) => loop f ty base ((lo, v) :: tl) pd false (skipn len expr)
                   end
               end
+            else if negb (is_nil rparts) && negb (length rparts =? pd)%nat then
+              Err E_VALID                       (* the previous part was not finished by | : unexpected data *)
             else
-              (* a new part, whether or not a | was seen since the last one *)
+              (* a new part *)
               match bound_num ty false (pd =? 0)%nat (prev_max pd rparts) expr with
               | Err e => Err e
               | Ok (v, len) => loop f ty base ((v, v) :: rparts) pd false (skipn len expr)
               end
           else if starts_with s_max expr then
+            if negb re && negb (is_nil rparts) && negb (length rparts =? pd)%nat then
+              Err E_VALID                       (* the previous part was not finished by | : unexpected data *)
+            else
             match skip_space (skipn 3 expr) with
             | _ :: _ => Err E_VALID                                  (* data after the max keyword *)
             | [] =>
@@ -253,11 +262,11 @@ Definition check_base (ds : parts) (b : parts) : bool :=
   match check_base_rem ds b with Some _ => true | None => false end.
 
 (* lys_compile_type_range(ctx, range_p, basetype, length_restr, frdigits, base_range, &range):
-   the loop runs over u < parts_done, all LY_ARRAY_COUNT(parts) parts are stored.
-     parts_done <= COUNT: only the first parts_done parts take part in the check (juxtaposed parts escape it);
-     parts_done >  COUNT (after two | in a row, e.g. 1||): when the real parts are placed and base parts are left
-       (v < COUNT(base)), the loop READS parts[u] BEYOND THE ARRAY (heap over-read, undefined behaviour): the model
-       answers the distinguished error E_OOB there; when no base part is left the loop ends with u != parts_done. *)
+   the loop of the check runs over u < parts_done, all LY_ARRAY_COUNT(parts) parts are stored. If parts_done could
+   exceed COUNT, the loop would read parts[u] beyond the array once the real parts are placed and base parts are left:
+   the model answers the distinguished error E_OOB there. Since commits 72878af / b6c3725 the parser ends with
+   parts_done = COUNT for every text (RestrictP.loop_inv), so neither that answer nor the truncation by firstn can
+   happen any more; they are kept because the C loop is still written with parts_done. *)
 Definition E_OOB : N := 11.
 
 Definition compile_range (ty : rty) (base : parts) (text : bytes) : res parts :=
